@@ -51,7 +51,10 @@ def make_pool(rng, work):
         "nofor correct #%d=0\"a\" \"a\"#%d=1\nnofor correct #%d=1\"a\" \"aa\"\n" % (v[5], v[5], v[5]) +
         "noback context #%d=0\"c\" @14#%d=1\nnoback context #%d=1\"c\" @14-14\n" % (v[6], v[6], v[6]) +
         "nofor pass4 #%d=0@1 @1#%d=1\nnofor pass4 #%d=1@1 @1-1\n" % (v[7], v[7], v[7]))
-    lists += [str(work / n) for n in ("A.utb", "B.utb", "C.utb", "D.utb", "V.utb", "V.utb")]
+    # G: characters that get their display mapping from a `grouping' rule only: whether the display part of a list is
+    # compiled alone (lou_charToDots / lou_dotsToChar first) or together with the translation part must not matter
+    (work / "G.utb").write_text("space \\s 0\nlowercase a 1\nlowercase b 12\ngrouping paren () 126,345\nsign - 36\n")
+    lists += [str(work / n) for n in ("A.utb", "B.utb", "C.utb", "D.utb", "V.utb", "V.utb", "G.utb", "G.utb")]
     for i in range(4):
         r = rng.fork(("gt", i))
         entries, rules, letters = tablegen.gen_c06_table(r, directions=("noback", "nofor"))
@@ -69,7 +72,7 @@ def make_calls(rng, lists, n):
         k = rng.below(10)
         generated = "/work-" in tl
         if generated:
-            inp = [rng.choice([97, 98, 99, 100, 32, 46, 49]) for _ in range(rng.range(1, 12))]
+            inp = [rng.choice([97, 98, 99, 100, 32, 46, 49, 40, 41]) for _ in range(rng.range(1, 12))]
         else:
             inp = [c for c in safety.gen_input(rng, 24) if c] or [97]
         mode = rng.choice([0, 0, 4, 1, 128, 256, 4 | 64])
